@@ -116,6 +116,16 @@ fn("prod", {"a": ("L", "pos")}, lambda f, a: f(a["a"]), "L**3")
 fn("nanprod", {"a": ("L", "pos")}, lambda f, a: f(a["a"]), "L**3")
 fn("prod", {"a": ("L", "p22")}, lambda f, a: f(a["a"], axis=0), "L**2")
 fn("prod", {"a": ("L", "p22")}, lambda f, a: f(a["a"], axis=1), "L**2")
+# products under a mask: the unit is the input unit to the NUMBER OF SELECTED factors; when that number differs between
+# output cells only a dimensionless input has a meaning (the product of the selected plain numbers)
+fn("prod", {"a": ("L", "pos")}, lambda f, a: f(a["a"], where=[True, False, True]), "L**2")
+fn("nanprod", {"a": ("L", "pos")}, lambda f, a: f(a["a"], where=[True, False, True]), "L**2")
+fn("prod", {"a": ("L", "p22")}, lambda f, a: f(a["a"], axis=0, where=[[True, False], [False, True]]), "L")  # (a cell with NOTHING selected is the bare identity 1: no unit is right for it, so no such mask here)
+fn("prod", {"a": ("L", "p22")}, lambda f, a: f(a["a"], axis=1, where=[[True, True], [True, True]]), "L**2")
+fn("prod", {"a": ("D", "p22")}, lambda f, a: f(a["a"], axis=0, where=[[True, True], [False, True]]), "D")
+fn("prod", {"a": ("D", "p22")}, lambda f, a: f(a["a"], axis=1, where=[[True, False], [True, True]]), "D")
+fn("nanprod", {"a": ("D", "p22")}, lambda f, a: f(a["a"], axis=0, where=[[True, True], [False, True]]), "D")
+fn("prod", {"a": ("D", "p22")}, lambda f, a: f(a["a"], axis=0, keepdims=True, where=[[False, True], [True, True]]), "D")
 fn("cumprod", {"a": ("D", "pos")}, lambda f, a: f(a["a"]), "D")
 fn("nancumprod", {"a": ("D", "pos")}, lambda f, a: f(a["a"]), "D")
 fn("average", {"a": ("L", "v1"), "w": ("T", "pos")}, lambda f, a: f(a["a"], weights=a["w"]), "L")
